@@ -277,7 +277,8 @@ NP_FUNCS = {
     'numpy.arccos': lambda x: vmap(sp.acos, x), 'numpy.arcsin': lambda x: vmap(sp.asin, x),
     'numpy.log': lambda x: vmap(sp.log, x), 'numpy.exp': lambda x: vmap(sp.exp, x),
     'numpy.sqrt': lambda x: vmap(sp.sqrt, x), 'numpy.abs': lambda x: vmap(sp.Abs, x), 'numpy.absolute': lambda x: vmap(sp.Abs, x),
-    'numpy.sign': lambda x: vmap(sp.sign, x),
+    'numpy.sign': lambda x: vmap(sp.sign, x), 'numpy.floor': lambda x: vmap(sp.floor, x), 'numpy.ceil': lambda x: vmap(sp.ceiling, x),
+    'numpy.rint': lambda x: x, 'numpy.round': lambda x, *a: x,
     'numpy.radians': lambda x: vmap(lambda e: e * sp.pi / 180, x), 'numpy.degrees': lambda x: vmap(lambda e: e * 180 / sp.pi, x),
     'numpy.dot': lambda a, b: np.dot(a, b), 'numpy.inner': lambda a, b: np.inner(a, b), 'numpy.outer': lambda a, b: np.outer(a, b),
     'numpy.cross': lambda a, b: np.cross(a, b), 'numpy.einsum': lambda spec, *ops: np.einsum(spec, *[np.asarray(o, dtype=object) for o in ops]),
@@ -624,6 +625,8 @@ class SymEval:
                 return vmap(sp.re, base)
             if attr == 'imag':
                 return vmap(sp.im, base)
+            if attr in ('min', 'max'):
+                return (lambda axis=None: (sp.Min if attr == 'min' else sp.Max)(*base.flat)) if True else None
             if attr in ('dot', 'sum', 'copy', 'transpose', 'conjugate', 'conj', 'reshape', 'tolist', 'all', 'any', 'flatten', 'astype', 'prod'):
                 return {'dot': lambda b: np.dot(base, b), 'sum': lambda axis=None: np.sum(base, axis=axis), 'copy': lambda: base.copy(),
                         'transpose': lambda *a: base.transpose(*a), 'conjugate': lambda: vmap(sp.conjugate, base), 'conj': lambda: vmap(sp.conjugate, base),
